@@ -818,3 +818,70 @@ Proof. vm_compute. reflexivity. Qed.
 Example ex_normalise : normalise_cells 1 false [[Some 4; Some 10; Some 1; None]; [Some 122; Some 4; None; None]] =
   Ok [[Some 2; Some 3; Some 1; None]; [Some 4; Some 2; None; None]].
 Proof. vm_compute. reflexivity. Qed.
+
+(* ------------------------------------------------------------------------- *)
+(* 9. _normalise_cell_ids: an array in canonical form is left as it is        *)
+(* ------------------------------------------------------------------------- *)
+Lemma zseq_length n : forall s, length (zseq s n) = n.
+Proof. induction n as [|n IH]; intros s; simpl; [reflexivity|]. rewrite IH. reflexivity. Qed.
+
+Lemma zseq_last n : forall s, last (zseq s (S n)) 0 = s + Z.of_nat n.
+Proof.
+  induction n as [|n IH]; intros s; [simpl; lia|].
+  change (last (zseq s (S (S n))) 0) with (last (zseq (s + 1) (S n)) 0).
+  rewrite IH, Nat2Z.inj_succ. lia.
+Qed.
+
+Lemma list_eqb_refl l : list_eqb Z.eqb l l = true.
+Proof. induction l as [|x t IH]; simpl; [reflexivity|]. rewrite Z.eqb_refl, IH. reflexivity. Qed.
+
+Lemma fold_max_le M l : forall d, d <= M -> Forall (fun v => v <= M) l -> fold_right Z.max d l <= M.
+Proof. induction l as [|x t IH]; intros d Hd H; simpl; [assumption|]. inversion H; subst. specialize (IH d Hd H3). lia. Qed.
+
+Lemma fold_min_ge m l : forall d, m <= d -> Forall (fun v => m <= v) l -> m <= fold_right Z.min d l.
+Proof. induction l as [|x t IH]; intros d Hd H; simpl; [assumption|]. inversion H; subst. specialize (IH d Hd H3). lia. Qed.
+
+Lemma first_col_head a id0 r : first_col a = Some (id0 :: r) -> hd 0 (all_present a) = id0.
+Proof.
+  destruct a as [|[|[v|] t] a']; simpl; try discriminate.
+  destruct (first_col a'); simpl; [|discriminate]. intros E; inversion E; subst. reflexivity.
+Qed.
+
+Lemma normalise_ids_fixpoint s a n : s = 0 \/ s = 1 ->
+  first_col a = Some (zseq s (S n)) ->
+  Forall (fun v => s <= v <= s + Z.of_nat n) (all_present a) ->
+  normalise_ids s false a = Ok a.
+Proof.
+  intros Hs Hcol Hall.
+  assert (Hhd : hd 0 (all_present a) = s) by (apply (first_col_head a s (zseq (s + 1) n)); exact Hcol).
+  assert (Hmax : zmax (all_present a) <= s + Z.of_nat n).
+  { unfold zmax. apply fold_max_le; [rewrite Hhd; lia|]. eapply Forall_impl; [|exact Hall]. simpl; intros; lia. }
+  assert (Hmin : s <= zmin (all_present a)).
+  { unfold zmin. apply fold_min_ge; [rewrite Hhd; lia|]. eapply Forall_impl; [|exact Hall]. simpl; intros; lia. }
+  unfold normalise_ids. rewrite Hcol.
+  change (zseq s (S n)) with (s :: zseq (s + 1) n).
+  assert (Hlen : length (s :: zseq (s + 1) n) = S n) by (simpl; rewrite zseq_length; reflexivity).
+  rewrite Hlen.
+  change (s :: zseq (s + 1) n) with (zseq s (S n)).
+  assert (Hgt : (zmax (all_present a) >? last (zseq s (S n)) 0) = false).
+  { rewrite zseq_last, Z.gtb_ltb. apply Z.ltb_ge. lia. }
+  assert (Hlt : (zmin (all_present a) <? s) = false) by (apply Z.ltb_ge; lia).
+  destruct Hs as [->| ->].
+  - rewrite list_eqb_refl. change (0 =? 0) with true. change (0 =? 1) with false. cbn [andb orb negb].
+    rewrite Hcol. cbn [hd zseq]. change (0 :: zseq (0 + 1) n) with (zseq 0 (S n)).
+    rewrite Hgt, Hlt. reflexivity.
+  - rewrite list_eqb_refl. change (1 =? 0) with false. change (1 =? 1) with true. cbn [andb orb negb].
+    rewrite Hcol. cbn [hd zseq]. change (1 :: zseq (1 + 1) n) with (zseq 1 (S n)).
+    rewrite Hgt, Hlt. reflexivity.
+Qed.
+
+Example ex_canonical :
+  first_col [[Some 1; Some 2; None]; [Some 2; Some 1; None]] = Some (zseq 1 2) /\
+  Forall (fun v => 1 <= v <= 1 + Z.of_nat 1) (all_present [[Some 1; Some 2; None]; [Some 2; Some 1; None]]).
+Proof. split; [reflexivity|]. repeat constructor; simpl; lia. Qed.
+
+(* the relabelling path: cells 4, 1, 125 of a larger mesh (docstring of normalise) *)
+Example ex_normalise_ids :
+  normalise_ids 0 false [[Some 4; Some 1; Some 10; Some 125]; [Some 1; Some 4; None; None]; [Some 125; Some 4; None; None]]
+  = Ok [[Some 0; Some 1; Some 2; None]; [Some 1; Some 0; None; None]; [Some 2; Some 0; None; None]].
+Proof. vm_compute. reflexivity. Qed.
